@@ -120,6 +120,9 @@ def run_schedule(args):
             elif k == "ntick":
                 r.ntick()
             elif k == "cb":
+                if not r.ncp.negotiated and ver >= 14:
+                    continue              # before negotiation the host reads callbacks with the version-4 tables: a 4-byte status would leave
+                                          # surplus bytes and the value comparison (CRC of the payload) would not apply
                 st_ty = list(r.ncp.cmds["stackStatusHandler"][2].values())[0]
                 r.ncp_callback("stackStatusHandler", [st_ty(0x90 if st_ty is not bt.sl_Status else 0x0090 & 0xFF)])
                 await r.settle()
